@@ -7,6 +7,15 @@ def run(ctx):
     if ctx.thorough:
         ctx.tlc_mc("MC_Pivot", "MC_Pivot.cand.cfg", workers=12, timeout=3000)
         ctx.tlc_mc("MC_Pivot", "MC_Pivot.thorough.cfg", workers=12, timeout=6000)
+    # extension: the topological sort that orders the returned pivots (every digraph on 3 vertices incl. unknown vertices and loops; random DAGs / cycles)
+    ctx.tlc_mc("MC_TopSort", "MC_TopSort.cfg", workers=1, timeout=600)
+    tpath, tobjs = ctx.tlc_gen("Gen_TopSort", "Gen_TopSort.cfg", workers=1)
+    ttrace = ctx.path("topsort_trace.ndjson")
+    tsumm, _, _ = ctx.yv("topsort", "record", "--seed", ctx.seed, "--tier", ctx.tier, "--in", tpath, "--out", ttrace)
+    tr = ctx.tlc_trace("Trace_TopSort", "Trace_TopSort.cfg", ttrace, timeout=1800, tag="Trace_TopSort")
+    ctx.trace_verdict(tr, ttrace, "top_sort call", key_prefix="topsort")
+    ctx.cov["conformance"].append({"direction": "top_sort: spec->impl inputs + impl->spec validation", **tsumm["record"], "accepted": tr["accepted"]})
+    ctx.cov["evaluations"] += tsumm["record"]["events"]
     # A: TLC behaviours (simulation on 3x3 patterns, every candidate subset) -> schedules forced on the real worker threads
     nsim = 400 if ctx.thorough else 80
     path, objs = ctx.tlc_gen("Gen_Pivot", "Gen_Pivot.cfg", workers=1, extra=["-simulate", "num=%d" % nsim, "-depth", "80", "-seed", str(ctx.seed)])
